@@ -171,7 +171,7 @@ def t_punycode(c, rng):
     return d
 
 
-WS = [" ", "\t", "\n", "\r\n", "\x0b", "\x0c", "  ", " \t "]
+WS = [" ", "\t", "\n", "\r\n", "\x0b", "\x0c", "  ", " \t ", "\xa0", "\u2003", "\u3000", "\u2028 ", "\u1680", "\u202f\t"]  # (whatever str.strip() removes)
 CTRL = ["\x00", "\x01", "\t", "\n", "\r", "\x1f", "\x7f", "\x80", "\x85", "\x9f"]
 
 
